@@ -2,6 +2,7 @@ import UralModel.Lemmas.Quote
 import UralModel.Lemmas.QuoteIdem
 import UralModel.Lemmas.QuoteUpper
 import UralModel.Lemmas.QuoteControl
+import UralModel.Lemmas.QuoteSplit
 import UralModel.Gen.QuoteTables
 import UralModel.Model.Canonicalize
 /-!
@@ -554,6 +555,134 @@ theorem quote_unquote_idempotent (U : List UInt8) (hU : (0x25 : UInt8) ∈ U) (h
     render (quoteToks (tokens (safelyUnquote U s)))
   rw [unquote_quote_unquote U hU hA, quoteToks_map_harden]
 
+/-! ## `safely_quote(string, safe=…)`
+
+`safely_quote` takes the `safe` argument of `urllib.parse.quote` (default `"/"`);
+`safely_quote_qsl` passes `safe="/+"` (FX-C01-PLUS: in a query a raw `+` is a space and `%2B` a
+plus sign).  `safelyQuoteBy f` is `safely_quote` with the set `f` of characters left alone,
+`quoteSafeIn safe` the set `quote(…, safe=safe)` leaves alone; every clause of the statement
+holds for every `safe` whose ASCII characters are printable and neither the space nor `%`
+(`safeStrOk`; `SafeSet f` in general). -/
+
+/-- `safely_quote(s)` is `safely_quote(s, safe="/")`, and the query variant is
+`safely_quote(s, safe="/+")` -/
+theorem quote_default_safe (s : Str) :
+    safelyQuote s = safelyQuoteIn ['/'] s ∧ Canonicalize.quoteQsl [(s, some s)] =
+      [(safelyQuoteIn ['/', '+'] s, some (safelyQuoteIn ['/', '+'] s))] :=
+  ⟨safelyQuote_eq_in s, rfl⟩
+
+/-- every `safe` string of printable ASCII characters other than the space and `%` gives a
+set the theorems below apply to; `"/"` and `"/+"` are such strings -/
+theorem quote_safe_sets (safe : Str) (h : safeStrOk safe = true) : SafeSet (quoteSafeIn safe) :=
+  safeSet_in h
+
+theorem quoteBy_tokens {f : Char → Bool} (hf : SafeSet f) (s : Str) :
+    tokens (safelyQuoteBy f s) = quoteToksBy f (tokens s) := tokens_safelyQuoteBy hf s
+
+/-- pure ASCII; same decoded bytes; every pre-existing escape kept as is, where it was;
+outside its escapes only characters of `f`, and no stray `%`; quoting twice is quoting once -/
+theorem quoteBy_contract {f : Char → Bool} (hf : SafeSet f) (s : Str) :
+    (∀ ch ∈ safelyQuoteBy f s, ch.toNat < 0x80) ∧
+    pctStr (safelyQuoteBy f s) = pctStr s ∧
+    (∀ a b h1 h2, isHexDigit h1 = true → isHexDigit h2 = true →
+      safelyQuoteBy f (a ++ '%' :: h1 :: h2 :: b) =
+        safelyQuoteBy f a ++ '%' :: h1 :: h2 :: safelyQuoteBy f b) ∧
+    (∀ c, Tok.raw c ∈ tokens (safelyQuoteBy f s) → f c = true) ∧
+    Tok.stray ∉ tokens (safelyQuoteBy f s) ∧
+    safelyQuoteBy f (safelyQuoteBy f s) = safelyQuoteBy f s := by
+  refine ⟨?_, ?_, fun a b h1 h2 hh1 hh2 => safelyQuoteBy_append_esc f hh1 hh2 a b, ?_, ?_, ?_⟩
+  · intro ch hch
+    simp only [safelyQuoteBy, render, quoteToksBy, List.mem_flatMap] at hch
+    obtain ⟨t', ⟨t, ht, ht'⟩, hch⟩ := hch
+    apply ascii_render_quoteTokBy hf (wf_tokens s t ht) ch
+    simp only [render, List.mem_flatMap]
+    exact ⟨t', ht', hch⟩
+  · simp only [pctStr, quoteBy_tokens hf, pct_quoteToksBy]
+  · rw [quoteBy_tokens hf]
+    intro c hc
+    simp only [quoteToksBy, List.mem_flatMap] at hc
+    obtain ⟨t, _, ht⟩ := hc
+    cases t with
+    | raw c0 =>
+      simp only [quoteTokBy] at ht
+      split at ht
+      · rename_i hq
+        simp only [List.mem_singleton, Tok.raw.injEq] at ht
+        subst ht; exact hq
+      · simp only [List.mem_map] at ht
+        obtain ⟨b, _, hb⟩ := ht
+        simp [escOfByte] at hb
+    | esc h1 h2 => simp [quoteTokBy] at ht
+    | stray => simp [quoteTokBy] at ht
+  · rw [quoteBy_tokens hf]
+    intro hc
+    exact canon_quoteToksBy hf (wf_tokens s) _ hc
+  · have h := quoteBy_tokens hf s
+    unfold safelyQuoteBy at h ⊢
+    rw [h, quoteToksBy_idem]
+
+/-- **unquote then quote**, for any `safe`: the scan of
+`safely_unquote_*(safely_quote(safely_unquote_*(s), safe))` is the scan of `safely_unquote_*(s)`
+with the raw characters that `quote` escapes and the unquoter keeps escaped spelled as escapes -/
+theorem unquote_quoteBy_unquote {f : Char → Bool} (hf : SafeSet f) (U : List UInt8)
+    (hU : (0x25 : UInt8) ∈ U) (hA : AsciiSet U) (s : Str) :
+    tokens (safelyUnquote U (safelyQuoteBy f (safelyUnquote U s))) =
+      (tokens (safelyUnquote U s)).map (hardenBy f U) := by
+  rw [tokens_safelyUnquote U hU, tokens_safelyQuoteBy hf, escapeRaw_quoteToksBy hf,
+    tokens_safelyUnquote U hU]
+  exact unquoteToks_quoteBy_unquote_hardenBy hf U hU hA _ (wf_escapeRaw (wf_tokens s))
+    (fun c hc => (raw_mem_escapeRaw hc).2)
+
+/-- … hence `safely_quote(·, safe) ∘ safely_unquote_*` is idempotent, for every string -/
+theorem quoteBy_unquote_idempotent {f : Char → Bool} (hf : SafeSet f) (U : List UInt8)
+    (hU : (0x25 : UInt8) ∈ U) (hA : AsciiSet U) (s : Str) :
+    safelyQuoteBy f (safelyUnquote U (safelyQuoteBy f (safelyUnquote U s))) =
+      safelyQuoteBy f (safelyUnquote U s) := by
+  show render (quoteToksBy f (tokens (safelyUnquote U (safelyQuoteBy f (safelyUnquote U s))))) =
+    render (quoteToksBy f (tokens (safelyUnquote U s)))
+  rw [unquote_quoteBy_unquote hf U hU hA, quoteToksBy_map_hardenBy]
+
+/-- `upper_quoted` and `safely_quote(·, safe)` can be applied in either order -/
+theorem upper_commutes_quoteBy {f : Char → Bool} (hf : SafeSet f) (s : Str) :
+    safelyQuoteBy f (upperQuoted s) = upperQuoted (safelyQuoteBy f s) :=
+  safelyQuoteBy_upperQuoted hf s
+
+/-- **a raw `+` and `%2B` are never rewritten into each other in a query item**
+(FX-C01-PLUS): the safe unquoter keeps the raw `+` where they are and `%2B` escaped (`+` is in
+`UNSAFE_FOR_QUERY_ITEM`), the quoting step of query items leaves the raw `+` alone and keeps
+`%2B` as written -/
+theorem query_plus_kept (a b : Str) :
+    (tokens (Canonicalize.unquoteQueryItem a)).count (.raw '+') = (tokens a).count (.raw '+') ∧
+    (tokens (quoteQueryItem a)).count (.raw '+') = (tokens a).count (.raw '+') ∧
+    quoteQueryItem (a ++ '+' :: b) = quoteQueryItem a ++ '+' :: quoteQueryItem b ∧
+    quoteQueryItem (a ++ '%' :: '2' :: 'B' :: b) =
+      quoteQueryItem a ++ '%' :: '2' :: 'B' :: quoteQueryItem b := by
+  refine ⟨?_, ?_, ?_, ?_⟩
+  · exact unquote_delimiters _ tables_percent_unsafe.2.2.1 '+' (by decide) (by decide) (by decide) a
+  · show (tokens (safelyQuoteBy quoteSafeQ a)).count (.raw '+') = _
+    rw [quoteBy_tokens safeSet_quoteSafeQ]
+    generalize tokens a = ts
+    induction ts with
+    | nil => rfl
+    | cons t r ih =>
+      rw [quoteToksBy_cons, List.count_append, ih, List.count_cons]
+      cases t with
+      | raw c =>
+        by_cases hq : quoteSafeQ c = true
+        · simp [quoteTokBy, hq, List.count_cons]; omega
+        · have hne : c ≠ '+' := by rintro rfl; exact hq (by decide)
+          have h0 : ((utf8 c).map escOfByte).count (.raw '+') = 0 := by
+            rw [List.count_eq_zero]; intro hm
+            simp only [List.mem_map] at hm
+            obtain ⟨b, _, hb⟩ := hm
+            simp [escOfByte] at hb
+          simp only [quoteTokBy, hq, Bool.false_eq_true, if_false, h0]
+          simp [hne]
+      | esc h1 h2 => simp [quoteTokBy]
+      | stray => simp [quoteTokBy]
+  · exact safelyQuoteBy_append_sep ⟨by decide, by decide⟩ (by decide) a b
+  · exact safelyQuoteBy_append_esc _ (by decide) (by decide) a b
+
 /-! ## the four configurations the public API uses
 
 `safely_unquote_auth_item`, `_path`, `_query_item`, `_fragment` are `safelyUnquote` at the four
@@ -642,13 +771,20 @@ theorem qsl_contract (l : List (Str × Option Str)) :
   obtain ⟨_, _, hA, _⟩ := tables_ascii
   have hp := unquote_pct _ hU
   have hi := unquote_idempotent _ hU hA
-  have hq := quote_unquote_idempotent _ hU hA
+  have hq : ∀ s, quoteQueryItem (safelyUnquote Gen.Quote.unsafeForQueryItem (quoteQueryItem
+      (safelyUnquote Gen.Quote.unsafeForQueryItem s))) =
+      quoteQueryItem (safelyUnquote Gen.Quote.unsafeForQueryItem s) :=
+    quoteBy_unquote_idempotent safeSet_quoteSafeQ _ hU hA
+  have hqp : ∀ s, pctStr (quoteQueryItem s) = pctStr s :=
+    fun s => (quoteBy_contract safeSet_quoteSafeQ s).2.1
+  have hqi : ∀ s, quoteQueryItem (quoteQueryItem s) = quoteQueryItem s :=
+    fun s => (quoteBy_contract safeSet_quoteSafeQ s).2.2.2.2.2
   simp only [Canonicalize.unquoteQsl, Canonicalize.quoteQsl, Canonicalize.unquoteQueryItem,
     List.map_map]
   refine ⟨?_, ?_, ?_, ?_, ?_⟩ <;>
   · apply List.map_congr_left
     rintro ⟨k, v⟩ _
-    cases v <;> simp [hp, hi, hq, quote_pct, quote_idempotent]
+    cases v <;> simp [hp, hi, hq, hqp, hqi]
 
 /-! ## non-vacuity: the four regenerated configurations on a string with every kind of token -/
 
